@@ -8,7 +8,7 @@ distinct, flags must carry priv, and no encoded OID of the scoped PDU may appear
 import os
 import sys
 
-from lib import gen, vf
+from lib import codec, gen, vf
 
 sys.path.insert(0, os.path.join(vf.VERIF, "harness", "py"))
 import ber  # noqa: E402
@@ -22,6 +22,43 @@ def main(argv):
     if not ok3:
         c.errors.append("model build failed " + log3[-800:])
         return c.finish("n/a")
+    # ---- every carry boundary of the salt counters, reached through the guarded hook PrivKey::verif_set_salt of /repo
+    # (MANIFEST.hooks): the counter is placed two below 2^k and four messages are encrypted
+    cd = codec.Codec(c)
+    n_carry = 0
+    if cd.ok:
+        lines, meta = [], []
+        for alg, bits in ((1, 32), (2, 64)):
+            mod = 2 ** bits
+            for k in list(range(1, bits + 1)):
+                for start in sorted(set([(2 ** k - 2) % mod, (2 ** k - 3) % mod] + ([c.rng.randrange(mod)] if k % 8 == 0 else []))):
+                    key = gen.rbytes(c.rng, 16, False)
+                    boots, tm = c.rng.randrange(2 ** 31), c.rng.randrange(2 ** 31)
+                    ops = ["s,%d" % start] + ["e,800001,get:%d:2b060102,%d,%d" % (5 + i, boots, tm) for i in range(4)]
+                    lines.append("priv %d %s %s" % (alg, key.hex(), "|".join(ops)))
+                    meta.append((alg, mod, start, boots))
+        ro = vf.run_lines(cd.rel, lines)
+        do = vf.run_lines(cd.dbg, lines)
+        mo = vf.run_lines(v3exe, [" ".join(ln.split(" ")[:3] + ["0"] + ln.split(" ")[3:]) for ln in lines], shards=8)
+        if any("NOHOOK" in o for o in ro[:1]):
+            c.assumptions.append("the tree carries no verif_set_salt hook: carry boundaries of the salt counters were not reached on this run")
+        else:
+            for ln, (alg, mod, start, boots), ml, rl, dl in zip(lines, meta, mo, ro, do):
+                n_carry += 1
+                c.count(("carry", alg, start), True)
+                for prof, o in (("release", rl), ("debug", dl)):
+                    if o != ml and not any(b.startswith("correspondence") for b in c.broken):
+                        c.broken = list(c.broken) + ["correspondence `%s`: model `%s` impl(%s) `%s`" % (ln[:120], ml[:160], prof, o[:160])]
+                    pps = [x.split(" ")[2] for x in o[3:].split(" | ") if x.startswith("E ")] if o.startswith("OK ") else []
+                    salts = [int(pp[8:], 16) if alg == 1 else int(pp, 16) for pp in pps if len(pp) == 16]
+                    want = [(start + i) % mod for i in range(4)]
+                    if salts != want:
+                        c.violation("%s: with the salt counter at %d the next four messages carry salts %s, expected %s (%s build)"
+                                    % ("des" if alg == 1 else "aes", start, salts, want, prof), {"cmd": ln, "profile": prof, "observed": o},
+                                    key="salt-carry:" + ("repeat" if len(set(salts)) != len(salts) else "sequence"))
+                    elif alg == 1 and any(pp[:8] != "%08x" % (boots % 2 ** 32) for pp in pps):
+                        c.violation("des: salt prefix is not engine boots (%s build)" % prof, {"cmd": ln, "observed": o}, key="des-salt-boots")
+    c.coverage["salt_carry_histories"] = n_carry
     n_req = 20000 if thorough else 1000
     job = {"n": n_req, "model_exe": v3exe, "seed": c.seed,
            "configs": [{"user": "ud", "auth": ["md5", 2, "22" * 16], "priv": ["des", 2, "33" * 16]},
